@@ -472,7 +472,8 @@ func C05(p *Prog, r *Run) {
 			for _, c := range cases {
 				g1 := false
 				for _, g := range c.Conds {
-					if boolFieldCond(tm, g, c.Cand, false, "IsEnabled") || boolFieldCond(tm, g, gene, false, "IsEnabled") {
+					// the tested object may be named by a second load of the same element (`if xs[i].F {continue}; xs[i].F = ..`)
+					if boolFieldCondSame(tm, g, c.Cand, false, "IsEnabled") || boolFieldCondSame(tm, g, gene, false, "IsEnabled") {
 						g1 = true
 					}
 				}
@@ -484,13 +485,10 @@ func C05(p *Prog, r *Run) {
 				l := scanLoopOf(loops, at)
 				l1, o1 := false, false
 				if l != nil {
-					// ascending scan from index 0 over the whole list
-					if iff, ok := l.Header.Instrs[len(l.Header.Instrs)-1].(*ssa.If); ok {
-						ct := tm.Of(iff.Cond)
-						l1 = ct.Op == "bin" && ct.Name == "<" && ct.Args[1].String() == "len(recv.Genes)" && strings.Contains(ct.Args[0].String(), "-1") && isElemOfRecvField(tm.Of(c.Cand), "Genes")
-						if et := tm.Of(c.Cand); l1 && len(et.Args) > 1 {
-							l1 = et.Args[1].String() == ct.Args[0].String()
-						}
+					// ascending scan from index 0 over the whole list (range loop or counted loop, see scanFromZero):
+					// the candidate is the element at the index of the current iteration
+					if idx, bound, ok := scanFromZero(l); ok {
+						l1 = tm.Of(bound).String() == "len(recv.Genes)" && isElemOfRecvField(tm.Of(c.Cand), "Genes") && elemIndexOf(c.Cand) == idx
 					}
 					backToScan := func(in ssa.Instruction) bool {
 						return in.Block() == l.Header && instrIndex(in) == len(l.Header.Instrs)-1
@@ -801,7 +799,9 @@ func (r *Run) checkConnectSensors(sums *Summaries) {
 		fromList     string // appended elements are elements of this list
 		underNotFlag ssa.Value
 		extra        []string
-		elem         ssa.Value // the appended element
+		elem         ssa.Value  // the appended element
+		call         *ssa.Call  // the append
+		scan         *scanGuard // appended only after a scan of the genome's genes ran to exhaustion (the form without a `connected` flag)
 	}
 	lists := map[string]*listInfo{} // keyed by the term string of the list's phi web root
 	appendSites := 0
@@ -820,14 +820,28 @@ func (r *Run) checkConnectSensors(sums *Summaries) {
 		appendSites++
 		_ = base
 		key := fmt.Sprint(c.Pos())
-		li := &listInfo{elem: elems[0]}
+		li := &listInfo{elem: elems[0], call: c}
 		et := tm.Of(elems[0])
 		if et.Op == "elem" {
 			li.fromList = et.Args[0].String()
 		}
 		loopsHere := Loops(fn)
 		own := InnermostLoop(loopsHere, b)
+		hasFlag := false
 		for _, g := range Guards(b) {
+			if f, w, ok := boolFlagOf(g.Cond); ok && g.True != w && f != nil {
+				hasFlag = true
+			}
+		}
+		if !hasFlag {
+			// `for genes { if gene leaves n { continue nodes } }; append(n)`: the append is reached only by exhausting the scan
+			li.scan = r.exhaustedScanBefore(fn, tm, loopsHere, c, "recv.Genes", elems[0])
+		}
+		for _, g := range Guards(b) {
+			if li.scan != nil && g.At == li.scan.L.Header {
+				// the exhaustion of that scan, accounted for by connect.connected-test
+				continue
+			}
 			if gc, ok := g.Cond.(*ssa.Call); ok && gc.Call.StaticCallee() == isSensor && gc.Call.Args[0] == elems[0] {
 				if g.True {
 					li.sensorSide = true
@@ -861,25 +875,56 @@ func (r *Run) checkConnectSensors(sums *Summaries) {
 	st, dt := tm.Of(src), tm.Of(dst)
 	var dList, sList, oList *listInfo
 	for _, li := range lists {
+		unconnected := li.underNotFlag != nil || li.scan != nil
 		switch {
-		case li.underNotFlag != nil && !li.sensorSide && !li.nonSensor:
+		case unconnected && !li.sensorSide && !li.nonSensor:
 			dList = li
+		case li.sensorSide && unconnected && !li.nonSensor:
+			// one loop over the nodes does both: `if !n.IsSensor() {..; continue}; scan; append(n)` - the list of
+			// unconnected sensors is filled directly from the nodes that are sensors
+			dList, sList = li, li
 		case li.sensorSide:
 			sList = li
 		case li.nonSensor:
 			oList = li
 		}
 	}
+	// list identity: a value is drawn from the list a given append fills when the append belongs to the slice's phi web
+	drawnFrom := func(v ssa.Value, li *listInfo) bool {
+		u, ok := stripCT(v).(*ssa.UnOp)
+		if !ok || li == nil {
+			return false
+		}
+		ia, ok := u.X.(*ssa.IndexAddr)
+		if !ok {
+			return false
+		}
+		for _, f := range phiWeb(ia.X).Feeders {
+			if f == ssa.Value(li.call) {
+				return true
+			}
+		}
+		return false
+	}
 	okChain := st.Op == "elem" && dt.Op == "elem" && dList != nil && sList != nil && oList != nil && sList.fromList == "recv.Nodes" && oList.fromList == "recv.Nodes" &&
 		(r.Mode == "well-formed" || (len(sList.extra) == 0 && len(oList.extra) == 0))
+	// the source is an element of the unconnected list, that list is filled from the sensor list, the target is an element of the target list
+	okChain = okChain && drawnFrom(src, dList) && drawnFrom(dst, oList) && (dList == sList || drawnFrom(dList.elem, sList))
 	if oList != nil && len(oList.extra) > 0 {
 		r.Note("connect-sensors: the target list is filled only under %v", oList.extra)
 	}
 	r.Check(okChain, "connect.provenance", p.Pos(fn.Pos()), "sensor list and target list partition the genome's nodes by IsSensor; the source is drawn from the sensors that were found unconnected",
 		fmt.Sprintf("cannot establish: sensors = nodes with IsSensor, targets = nodes without, source drawn from the unconnected sensors (source %s, target %s, lists found: unconnected=%v sensors=%v targets=%v)", st, dt, dList != nil, sList != nil, oList != nil))
 	// `connected` is set only under (gene.InNode == sensor) and the unconnected list is appended only when it is false after a full scan
-	if dList != nil && dList.underNotFlag != nil {
-		for _, s := range flagSites(dList.underNotFlag, true) {
+	if dList != nil && (dList.underNotFlag != nil || dList.scan != nil) {
+		var sites []flagEdge
+		if dList.underNotFlag != nil {
+			sites = flagSites(dList.underNotFlag, true)
+		} else {
+			// without a flag: the ways out of the scan's body are what marks the sensor connected
+			sites = dList.scan.Hits
+		}
+		for _, s := range sites {
 			okc := false
 			var extra []string
 			conds := condsAt(s.From, s.To)
@@ -888,6 +933,9 @@ func (r *Run) checkConnectSensors(sums *Summaries) {
 			scan := scanLoopOf(loops, s.From)
 			if scan != nil && !loopRangesOver(tm, scan, "recv.Genes") {
 				scan = nil
+			}
+			if dList.underNotFlag == nil {
+				scan = dList.scan.L
 			}
 			for _, g := range conds {
 				if scan != nil && (!scan.Blocks[g.At] || g.At == scan.Header) {
@@ -926,21 +974,52 @@ func (r *Run) checkConnectSensors(sums *Summaries) {
 	if dList != nil {
 		dFlag = dList.underNotFlag
 	}
+	var skipCands []ssa.Value
 	for _, g := range Guards(gcs[0].call.Block()) {
 		if f, w, ok := boolFlagOf(g.Cond); ok && g.True != w && f != dFlag {
 			if len(flagSites(f, true)) > 0 {
-				skip = f
+				skipCands = append(skipCands, f)
 			}
 		}
 	}
 	// choose the skip flag whose true-sites lie in a loop over recv.Genes
+	for _, f := range skipCands {
+		for _, s := range flagSites(f, true) {
+			if l := scanLoopOf(loops, s.From); l != nil && loopRangesOver(tm, l, "recv.Genes") {
+				skip = f
+			}
+		}
+	}
+	var skipScan *scanGuard
+	if skip == nil {
+		// no such flag: `for genes { if link exists { continue targets } }; create; insert` - the insertion is reached
+		// only by exhausting a scan of the genes; the ways out of the scan's body are the skips
+		skipScan = r.exhaustedScanBefore(fn, tm, loops, gi[0], "recv.Genes", src, dst)
+		for _, gc := range gcs {
+			if skipScan != nil && !(skipScan.L.Header.Dominates(gc.call.Block()) && !skipScan.L.Blocks[gc.call.Block()]) {
+				skipScan = nil
+			}
+		}
+		if skipScan == nil && len(skipCands) > 0 {
+			skip = skipCands[len(skipCands)-1]
+		}
+	}
 	okSkip := false
 	var extra []string
-	if skip != nil {
+	if skip != nil || skipScan != nil {
 		okSkip = true
-		for _, s := range flagSites(skip, true) {
+		var sites []flagEdge
+		if skip != nil {
+			sites = flagSites(skip, true)
+		} else {
+			sites = skipScan.Hits
+		}
+		for _, s := range sites {
 			hasIn, hasOut := false, false
 			l := scanLoopOf(loops, s.From)
+			if skip == nil {
+				l = skipScan.L
+			}
 			if l == nil || !loopRangesOver(tm, l, "recv.Genes") {
 				okSkip = false
 				extra = append(extra, "the flag is set outside a scan of the genome's genes")
@@ -991,8 +1070,8 @@ func (r *Run) checkConnectSensors(sums *Summaries) {
 	// the skip test with `link exists`, inserts a gene, or leaves the function. (The creation is spread over the reuse
 	// and the novel branch; state carried from one target to the next - a flag that is not reset - opens a path
 	// on which neither branch builds a gene.)
-	if skip != nil {
-		r.checkEveryTarget(sums, fn, loops, gi[0], skip)
+	if skip != nil || skipScan != nil {
+		r.checkEveryTarget(sums, fn, loops, gi[0], skip, skipScan)
 	}
 	// write set
 	ws, _ := p.writeSet(fn, 0)
